@@ -39,6 +39,67 @@ def target_algebra():
     return (f"{L.UTIL}:_calculate_pseudo_chisqr", L.UTIL, "_calculate_pseudo_chisqr", run)
 
 
+RESULT_CLASSES = [("analysis/drt/result", "DRTResult", False), ("analysis/zhit/__init__", "ZHITResult", False),
+                  ("analysis/fitting", "FitResult", True), ("analysis/kramers_kronig/result", "KramersKronigResult", True)]
+
+
+def target_result_views():
+    """What a result object SHOWS is what it HOLDS: get_frequencies / get_impedances / get_nyquist_data / get_bode_data /
+    get_residuals_data of every result class are the stored frequencies, impedances and residuals (Re Z, -Im Z; f, |Z|, -phase in
+    degrees; f, 100 Re r, 100 Im r), and for the classes with a `num_per_decade` option (FitResult, KramersKronigResult) a positive
+    value shows the attached circuit's impedance at the SAME interpolated frequencies in every view (so the curve a user plots is
+    the reported circuit's, and f / |Z| / phase of one row belong together).  The real methods run on EUF terms."""
+    from .dataflow import T, opaque
+
+    def run(sess: Session):
+        n_paths = 0
+        for module, cls, has_n in RESULT_CLASSES:
+            names = ["get_frequencies", "get_impedances", "get_nyquist_data", "get_bode_data", "get_residuals_data"]
+            ns = {"abs": lambda x: abs(x), "angle": opaque("angle"), "_interpolate": opaque("_interpolate"), "_is_integer": lambda x: True}
+            O.load(module, [f"{cls}.{n}" for n in names], ns)
+            f, Z, r = T.var("f"), T.var("Z"), T.var("res")
+            circ_Z = opaque("circuit.get_impedances")
+
+            class Circuit:
+                def get_impedances(self, freq):
+                    return circ_Z(freq)
+
+            class Me:
+                frequencies, impedances, residuals, circuit = f, Z, r, Circuit()
+            for n in names:
+                setattr(Me, n, ns[n])
+            ang = lambda z: opaque("angle")(z, deg=True)
+            cases = [("default", (), f, Z)]
+            if has_n:
+                cases += [("num_per_decade=0", (0,), f, Z), ("num_per_decade=-1", (-1,), f, Z)]
+            for tag, a, fw, Zw in cases:
+                me = Me()
+                DF.eq_check(sess, f"{cls}.get_frequencies == stored frequencies [{tag}]", me.get_frequencies(*a), fw)
+                DF.eq_check(sess, f"{cls}.get_impedances == stored impedances [{tag}]", me.get_impedances(*a), Zw)
+                re_, nim = me.get_nyquist_data(*a)
+                DF.eq_check(sess, f"{cls}.get_nyquist_data == (Re Z, -Im Z) [{tag}]", (re_, nim), (Zw.real, -Zw.imag))
+                DF.eq_check(sess, f"{cls}.get_bode_data == (f, |Z|, -phase in degrees) [{tag}]", tuple(me.get_bode_data(*a)), (fw, abs(Zw), -ang(Zw)))
+                n_paths += 1
+            DF.eq_check(sess, f"{cls}.get_residuals_data == (f, 100 Re r, 100 Im r)", tuple(Me().get_residuals_data()), (f, r.real * 100, r.imag * 100))
+            if has_n:
+                def once():
+                    n = T.var("n")
+                    me = Me()
+                    return n, me.get_frequencies(n), me.get_impedances(n), me.get_nyquist_data(n), me.get_bode_data(n)
+                for log, (n, gf, gZ, ny, bo), facts in DF.explore(once):
+                    pos = all(v for w, v in log if "gt" in str(w))
+                    tag = "n>0" if pos else "n<=0"
+                    fw = opaque("_interpolate")(f, n) if pos else f
+                    Zw = circ_Z(fw) if pos else Z
+                    DF.eq_check(sess, f"{cls}.get_frequencies == {'interpolated' if pos else 'stored'} frequencies [{tag}]", gf, fw)
+                    DF.eq_check(sess, f"{cls}.get_impedances == {'circuit impedance at the interpolated frequencies' if pos else 'stored impedances'} [{tag}]", gZ, Zw)
+                    DF.eq_check(sess, f"{cls}.get_nyquist_data == (Re Z, -Im Z) of that curve [{tag}]", tuple(ny), (Zw.real, -Zw.imag))
+                    DF.eq_check(sess, f"{cls}.get_bode_data == (f, |Z|, -phase) of that curve at those frequencies [{tag}]", tuple(bo), (fw, abs(Zw), -ang(Zw)))
+                    n_paths += 1
+        sess.check("cover", [], z3.BoolVal(n_paths >= 10), 0, label=f"result views executed on {n_paths} paths")
+    return ("analysis/drt/result:result views show the stored fields", "analysis/drt/result", "DRTResult.get_bode_data", run)
+
+
 def targets():
     from . import purity, c12
     pure = purity.target([
@@ -56,4 +117,4 @@ def targets():
     results = purity.target_observers(["data/data_set", "analysis/drt/result", "analysis/kramers_kronig/result", "analysis/zhit/__init__", "analysis/fitting",
                                        "analysis/drt/tr_nnls", "analysis/drt/tr_rbf", "analysis/drt/bht", "analysis/drt/lm", "analysis/drt/mrq_fit"], "data set and result observers keep no state")
     from . import frames
-    return [target_algebra()] + DF.c08_targets() + [pure, c12.target_fit_process_frame(), results, frames.target_inputs_not_modified()] + shared
+    return [target_algebra()] + DF.c08_targets() + [pure, c12.target_fit_process_frame(), results, frames.target_inputs_not_modified(), target_result_views()] + shared
